@@ -482,6 +482,12 @@ theorem ctor_controlled_anatomy (P : Policy) (e : ClassInfo) (r : Req) (o : Obj)
     (e.oneCtrl = true → ∀ v, (if e.fwdCV then r.cv.toOpt else none) = some v → v ∈ P.accepted) :=
   construct_controlled hc h
 
+example : ∃ e ∈ G.ctorTable, e.key = "CX" ∧ e.controlled = true ∧ e.arity = .two ∧
+    construct G.ctorPolicy e ⟨.scalar 1, .scalar 0, .absent, .absent⟩ = .ok ⟨some [1], some [0], some 1⟩ ∧
+    construct G.ctorPolicy e ⟨.list [2], .list [0, 1], .absent, .absent⟩ = .error .twoQubits ∧
+    construct G.ctorPolicy e ⟨.list [1, 2], .list [], .absent, .absent⟩ = .error .tgOneTarget := by
+  refine ⟨_, List.mem_of_getElem? (i := 30) rfl, by decide, by decide, by decide, by decide, by decide, by decide⟩
+
 /-- every constructor chain of the regenerated table hands a given control_value on (CPHASE dropped it before fix C09-2) -/
 theorem ctor_chain_hands_on : (G.ctorTable.all fun e => e.fwdCV) = true := by decide
 
@@ -614,6 +620,15 @@ theorem ctor_controlled_value_refused (ct : Which) (e : ClassInfo) (r : Req) (o 
     simp only [hg, Bool.false_eq_true, if_false, ha, hu, if_true, h, hc, Option.getD_some]
     have := build_rejects_value ((List.range cs.length).map Int.ofNat) [Int.ofNat cs.length] none v (by simpa using hv)
     rw [controlledGate_lists, this]
+
+example : (G.ctorTable[36]?.map fun e => (e.key, e.usesCV,
+      (match compact .targets e ⟨.list [2], .list [0, 1], .absent, .int 4⟩ ⟨some [2], some [0, 1], some 4⟩ with
+        | .error (.ctrl .blockIndex) => true | _ => false),
+      (match compact .targets e ⟨.list [2], .list [0, 1], .absent, .none⟩ ⟨some [2], some [0, 1], none⟩ with
+        | .error .cvNone => true | _ => false),
+      (match compact .targets e ⟨.list [2], .list [0, 1], .absent, .int 2⟩ ⟨some [2], some [0, 1], some 2⟩ with
+        | .ok (.block res) => res.K == 3 && res.entry [1, 0, 0] [1, 0, 1] == .u 0 1 && res.entry [0, 1, 0] [0, 1, 0] == .one
+        | _ => false))) = some ("ControlledGate:X", true, true, true, true) := by decide
 
 /-! ## The names each lookup path offers -/
 
